@@ -212,6 +212,18 @@ def present(atoms, rng, supercell=True, shear=True, rotate=True, translate=True,
         pos = a.get_positions()
         a = Atoms(numbers=a.get_atomic_numbers(), positions=pos, cell=U @ cell, pbc=True)
         desc["unimodular"] = U.tolist()
+    if shear and rng.random() < 0.3:
+        # a left-handed description of the same crystal: two cell vectors exchanged (or one reversed), atoms untouched
+        cell = np.array(a.get_cell())
+        if rng.random() < 0.5:
+            i, j = rng.choice(3, 2, replace=False)
+            cell[[i, j]] = cell[[j, i]]
+            desc["basis_vectors_exchanged"] = [int(i), int(j)]
+        else:
+            i = int(rng.integers(0, 3))
+            cell[i] = -cell[i]
+            desc["basis_vector_reversed"] = i
+        a = Atoms(numbers=a.get_atomic_numbers(), positions=a.get_positions(), cell=cell, pbc=True)
     if rotate:
         R = random_rotation(rng)
         cell = np.array(a.get_cell()) @ R.T
